@@ -913,6 +913,16 @@ theorem sigInv_run (ops : List Op) (s : State) (hr : ResInv s) (hi : SigInv s) :
 
 /-! ## opt-in -/
 
+/-- the guard of OptIn compares the raw 18-decimal integers exactly -/
+theorem selfDelegationTooLow_iff (self min : Dec) : selfDelegationTooLow self min = true ↔ self.raw < min.raw := by
+  unfold selfDelegationTooLow Dec.lt
+  exact decide_eq_true_iff
+
+theorem selfDelegationTooLow_min (usd : Int) (n : Nat) :
+    selfDelegationTooLow ⟨usd⟩ (minSelfDec n) = true ↔ usd < (n : Int) * PREC := by
+  unfold selfDelegationTooLow Dec.lt minSelfDec Dec.ofInt
+  exact decide_eq_true_iff
+
 theorem optInCore_spec (s : State) (op : String) (avs : Addr) (u : Option Int) (e1 e2 : String)
     (h1 : e1 ≠ "ok") (h2 : e2 ≠ "ok") :
     ((optInCore s op avs u e1 e2).1 = s ∧ (optInCore s op avs u e1 e2).2 ≠ "ok") ∨
@@ -931,10 +941,14 @@ theorem optInCore_spec (s : State) (op : String) (avs : Addr) (u : Option Int) (
     | none => left; simp [c1, c2]
     | some usd =>
       by_cases c3 : usd < (a.minSelf : Int) * PREC
-      · left; simp [c1, c2, c3]
+      · left; simp [c1, c2, (selfDelegationTooLow_min usd a.minSelf).2 c3]
       · right
+        have c4 : selfDelegationTooLow ⟨usd⟩ (minSelfDec a.minSelf) = false := by
+          cases hb : selfDelegationTooLow ⟨usd⟩ (minSelfDec a.minSelf) with
+          | false => rfl
+          | true => exact absurd ((selfDelegationTooLow_min usd a.minSelf).1 hb) c3
         refine ⟨c1, a, usd, rfl, rfl, by simpa using c2, by omega, ?_⟩
-        simp [c1, c2, c3]
+        simp [c1, c2, c4]
 
 theorem optAction_optin_spec (s : State) (d : Bool) (op : String) (avs : Addr) (u : Option Int) :
     ((optAction s d 1 op avs u).1 = s ∧ (optAction s d 1 op avs u).2 ≠ "ok") ∨
